@@ -197,7 +197,9 @@ func (w *hijackWatch) receive() {
 			}
 			asts, ok := event.Object.(*asv1.StatefulSet)
 			if !ok {
-				panic("unreachable")
+				// events which do not carry a StatefulSet (e.g. error statuses) are relayed as is
+				w.result <- event
+				continue
 			}
 			sts, err := ToBuiltinStatefulSet(asts)
 			if err != nil {
